@@ -35,6 +35,27 @@ CHECKS = {
  "C13": dict(engine=E1, category="model_checking", technique=T_E1, ref="DESIGN.md 3, 5/C13",
   text="Throttling for ops 1..3, interval 4 ticks, input capacity 0..2, k=2*ops+c+3 elements, producer gaps {0,I/2,I,3I}, consumer schedules (constant paces; take j then idle G in {I/2,I,I+1,2I,10I} then burst, for every j; two idle periods in thorough), cancel at grid points, on the virtual clock with every same-instant interleaving: exact order, closure, every window of length interval holds at most 2*ops+1+c deliveries before cancel (the maximum observed per (ops,c) is reported and reaches the bound exactly), saturated latency of element i within [floor(i/ops)*I, +I].",
   note=NOTE_E1 + "Virtual clock as in C11; the latency upper bound is a statement about the ideal clock. Deliveries at the very instant of the cancel are not counted (they may follow it)."),
+ "C14": dict(engine=E2, category="model_checking", technique="bounded-exhaustive enumeration of expression trees, each driven as a state machine on the real iterators against a list reference", ref="DESIGN.md 4, 5/C14",
+  text="All 720k expression trees of depth <=3 over From/FromSlice/TakeWhile/DropWhile/Filter/Map/Plus/Join with 5 predicates, 3 mappings, 6 flat-map functions (incl. nil-returning and predicate-terminated inner sequences), thorough: depth 4 over a reduced alphabet; at every position Value/Next agree with the list-function image, nil iff empty, ForEach with an error at every visit position, source slices (with sentinel-filled spare capacity) unmodified.",
+  note="Trusted: the reference list functions in e2/c14. Iterators are not shared between trees; Next is not called after it returned false. Random deeper trees are not sampled."),
+ "C15": dict(engine=E2, category="model_checking", technique="bounded-exhaustive enumeration of two-sorted expression trees, each driven as a state machine on the real iterators against a list-of-pairs reference", ref="DESIGN.md 4, 5/C15",
+  text="Every tree of depth <=3 and the depth-4 trees with any non-Plus root (Plus with one shallow operand) over pair.From/TakeWhile/DropWhile/Filter/Map/Plus/Join/ToSeq/FromSeq mixed with plain seq (9.6M trees; thorough 315M incl. depth 5), keys 100+i vs values i and argument-asymmetric functions: (Key,Value) at every position, Map keeps keys, ForEach stops at the first error.",
+  note="Trusted: the reference in e2/c15. Same protocol assumptions as C14."),
+ "C16": dict(engine=E2, category="model_checking", technique="explicit-state BFS over well-typed combinator programs executed on the real builder, reference-model comparison of visit traces, fault injection at every callback position", ref="DESIGN.md 4, 5/C16",
+  text="All well-typed programs of From/Join/LiftF/WrapF/Unit/Yield up to 5 (6) steps over an 8-type universe (2.4M distinct trees in quick), each replayed on a fresh From: the visit trace equals the reference builder's (innermost-open-context rule, type names = duct.TypeOf of the step's parameters, depths, Root flags, child counts), enter/leave well-bracketed, and a visitor failing at any callback position gets its error back with no further callback.",
+  note="Trusted: reference builder in e2/c16, statically generated instantiation table reg_gen.go."),
+ "C17": dict(engine=E2, category="exploration", technique="exhaustive enumeration over boundary alphabets (all pairs and triples)", ref="DESIGN.md 5/C17",
+  text="eq.Int/ord.Int over 9 boundary ints and eq.String/ord.String over 13 strings (all pairs, all triples): agreement with ==,<,>, equivalence and total-order laws, Ord EQ iff Eq; From wrappers and ContraMap with asymmetric base instances (argument order), monoid.From/FromOp/semigroup.From with non-commutative operations.",
+  note="Values outside the alphabets are not covered (explicit limit of the statement's quantifier for a bounded check)."),
+ "C18": dict(engine=E2, category="model_checking", technique="explicit-state BFS over all reachable states of the real skip list (enumerated node heights), reference map comparison on every transition", ref="DESIGN.md 4, 5/C18",
+  text="All reachable states (not a depth bound) of the skip list for 3 keys x 2 values x heights 1..3 (thorough: 4 keys x heights 1..4, 5 keys x heights 1..3, 3 keys x heights 1..6) under ord.Int, a reversed ord.From and ord.String; a state is the list's own printed pointer structure plus read-back values; every Put/Get/Remove from every state is executed on a fresh real list: return values equal a map's, printed keys strictly ascending, forward pointers only to larger live keys.",
+  note="Node heights are chosen by the driver through a seam file added to the staged copy of the package (replaces the list's rand.Source only). Long random histories are not sampled."),
+ "C19": dict(engine=E2, category="model_checking", technique="bounded-exhaustive script enumeration (tree of persistent values, no de-duplication) on both real implementations against one reference", ref="DESIGN.md 4, 5/C19",
+  text="From New(xs) for all xs over {1,2,3} of length <=3, every script of Cons(1|2|3)/Tail up to 6 (8) operations on the linked-list and on the slice trait: Length, IsEmpty, Head/Tail walk and Fold (non-commutative a*10+b from empty 7) equal the reference list; arguments and all earlier siblings are re-observed after later operations (persistence).",
+  note="Element values 1..3 stand for all values (parametricity)."),
+ "C20": dict(engine=E2, category="exploration", technique="exhaustive enumeration over arities 2..20 x argument sets x function-level interleavings of two overlapping invocations", ref="DESIGN.md 5/C20",
+  text="Every exported PipeN found in the staged source (N=2..20): call trace = 1..N exactly once per invocation, value equals the sequential composition of pairwise non-commuting affine maps, nothing applied at composition time, nil interface values travel through an any-typed pipeline, re-entrant invocation from every position, and two overlapping invocations under all C(2N,N) function-level interleavings (N<=5) / all park points (N>5).",
+  note="Data races inside PipeN itself are not modelled (invocations are gated)."),
 }
 
 PENDING = "check not built yet in this session (planned: DESIGN.md section 5)"
